@@ -175,17 +175,24 @@ def nullable(t):
     return nullable(t[1]) or nullable(t[2])
 
 
-def nullable_loop(t):
-    """The narrow classifier of KF-EMPTY-LOOP: an unbounded loop (max < 0) whose body can match
-    the empty string."""
+def nullable_loop(t, inside=False):
+    """The narrow classifier of KF-EMPTY-LOOP (empty iterations of a repetition are distinct parses, the engine has
+    no empty-iteration check): an unbounded loop (max < 0) whose body can match the empty string, or -- the same root
+    cause one level down -- a counted repetition with OPTIONAL copies (min < max) of a nullable body that sits inside
+    an unbounded loop: `((a?){2,4}(.+))*X` multiplies the 2^n splits of the outer loop by the ways of taking empty
+    optional copies (seed 2 of the quick tier, 12-byte line: > 2 s)."""
     k = t[0]
     if k == 'nil':
         return False
     if k == 'atom':
-        return t[4] < 0 and t[1] in ('beg', 'end', 'wbeg', 'wend')
+        anchor = t[1] in ('beg', 'end', 'wbeg', 'wend')
+        return anchor and (t[4] < 0 or (inside and 0 <= t[3] < t[4]))
     if k == 'grp':
-        return (t[3] < 0 and nullable(t[4])) or nullable_loop(t[4])
-    return nullable_loop(t[1]) or nullable_loop(t[2])
+        mn, mx = t[2], t[3]
+        if nullable(t[4]) and (mx < 0 or (inside and 0 <= mn < mx)):
+            return True
+        return nullable_loop(t[4], inside or mx < 0)
+    return nullable_loop(t[1], inside) or nullable_loop(t[2], inside)
 
 
 def nested_loops(t, inside=False):
